@@ -309,11 +309,11 @@ def render(T):
     body += "\nDefinition validator_keys : list str := %s.\n" % _l(T.validator_keys, cstr)
     body += "\n(* class ids of the rows recorded as C12 findings in known_findings.json *)\n"
     body += "Definition known_bad_rows : list N := %s.\n" % _l(known_bad_rows(T))
-    ku, ke, kv = known_c13(T)
-    body += "\n(* rows recorded as C13 findings in known_findings.json *)\n"
-    body += "Definition known_unresolved_attr : list (N * N) := %s.\n" % _l(ku, lambda p: "(%d,%d)" % p)
-    body += "Definition known_unenforced_enum : list N := %s.\n" % _l(ke)
-    body += "Definition known_unresolved_vtype : list N := %s.\n" % _l(kv)
+    good, bad = c13_examples(T)
+    body += "\n(* C13 non-vacuity examples, read back from real objects: messages that satisfy every declared constraint, *)\n"
+    body += "(* and the same messages with exactly one constraint violated somewhere below the root *)\n"
+    body += "Definition c13_ex_valid : list inst := [\n %s\n].\n" % ";\n ".join(schema_gen_mod().obj_to_coq(T, o) for o in good)
+    body += "Definition c13_ex_violated : list inst := [\n %s\n].\n" % ";\n ".join(schema_gen_mod().obj_to_coq(T, o) for _l, o in bad)
     body += "\n(* a real object (samlp.Response with a signed-shape assertion, typed attribute values, foreign content) read back as a model instance *)\n"
     body += "Definition example_inst : inst := %s.\n" % example_inst(T)
     return head + body
@@ -330,37 +330,97 @@ def known_bad_rows(T):
     for f in kf.get("findings", []):
         if f.get("property") != "C12" or ":" not in f.get("key", ""):
             continue
+        if f["key"].split(":", 1)[0] not in ("tagkey", "none-child", "member-missing", "duplicate-member", "child-order", "row-other"):
+            continue    # only row defects name a row (Props/C12.v no longer uses this list: wf_schema is proved for all rows)
         qn = f["key"].split(":", 1)[1].rsplit(".", 1)[0]
         if qn in T.qname and T.qname.index(qn) not in ids:
             ids.append(T.qname.index(qn))
     return sorted(ids)
 
 
-def known_c13(T):
-    from core import VERIF
-    try:
-        kf = json.load(open(VERIF + "/known_findings.json"))
-    except OSError:
-        return [], [], []
-    ku, ke, kv = [], [], []
-    for f in kf.get("findings", []):
-        key = f.get("key", "")
-        if f.get("property") != "C13" or ":" not in key:
-            continue
-        kind, rest = key.split(":", 1)
-        if kind == "unresolved-type":
-            clsmember = rest.split(":", 1)[0]
-            qn, member = clsmember.rsplit(".", 1)
-            if qn in T.qname and member in T.intern:
-                cid = T.qname.index(qn)
-                for (x, m, _t, _r) in T.rows[cid]["attrs"]:
-                    if m == T.intern[member]:
-                        ku.append((cid, x))
-        elif kind == "enum-not-enforced" and rest in T.qname:
-            ke.append(T.qname.index(rest))
-        elif kind == "unresolved-vtype" and rest.split(":", 1)[0] in T.qname:
-            kv.append(T.qname.index(rest.split(":", 1)[0]))
-    return sorted(set(ku)), sorted(set(ke)), sorted(set(kv))
+def schema_gen_mod():
+    import schema_gen
+    return schema_gen
+
+
+def _c13_response():
+    from saml2_tophat import saml, samlp
+    a = saml.Assertion(
+        id="a1", version="2.0", issue_instant="2020-01-01T00:00:00Z", issuer=saml.Issuer(text="https://idp.example.org"),
+        subject=saml.Subject(name_id=saml.NameID(text="user1", format=saml.NAMEID_FORMAT_PERSISTENT),
+                             subject_confirmation=[saml.SubjectConfirmation(
+                                 method=saml.SCM_BEARER,
+                                 subject_confirmation_data=saml.SubjectConfirmationData(
+                                     in_response_to="id1", recipient="https://sp.example.org/acs",
+                                     not_on_or_after="2020-01-01T00:10:00Z"))]),
+        conditions=saml.Conditions(not_before="2020-01-01T00:00:00Z", not_on_or_after="2020-01-01T00:10:00Z",
+                                   audience_restriction=[saml.AudienceRestriction(audience=[saml.Audience(text="https://sp.example.org/sp")])]),
+        authn_statement=[saml.AuthnStatement(
+            authn_instant="2020-01-01T00:00:00Z", session_index="s1",
+            subject_locality=saml.SubjectLocality(address="192.0.2.7"),
+            authn_context=saml.AuthnContext(authn_context_class_ref=saml.AuthnContextClassRef(text=saml.AUTHN_PASSWORD)))],
+        attribute_statement=[saml.AttributeStatement(attribute=[
+            saml.Attribute(name="mail", name_format=saml.NAME_FORMAT_URI, attribute_value=[saml.AttributeValue(text="a@b")])])])
+    return samlp.Response(id="r1", version="2.0", issue_instant="2020-01-01T00:00:00Z", in_response_to="id1",
+                          destination="https://sp.example.org/acs", issuer=saml.Issuer(text="https://idp.example.org"),
+                          assertion=[a], status=samlp.Status(status_code=samlp.StatusCode(value=samlp.STATUS_SUCCESS)))
+
+
+def _c13_entity():
+    from saml2_tophat import md, saml
+    from saml2_tophat import xmldsig as ds
+    sp = md.SPSSODescriptor(
+        protocol_support_enumeration="urn:oasis:names:tc:SAML:2.0:protocol", authn_requests_signed="true",
+        want_assertions_signed="false",
+        key_descriptor=[md.KeyDescriptor(use="signing", key_info=ds.KeyInfo(key_name=[ds.KeyName(text="k1")]))],
+        assertion_consumer_service=[md.AssertionConsumerService(
+            binding="urn:oasis:names:tc:SAML:2.0:bindings:HTTP-POST", location="https://sp.example.org/acs", index="0", is_default="true")],
+        attribute_consuming_service=[md.AttributeConsumingService(
+            index="1", service_name=[md.ServiceName(text="svc", lang="en")],
+            requested_attribute=[md.RequestedAttribute(name="mail", is_required="true")])])
+    return md.EntityDescriptor(entity_id="https://sp.example.org/sp", valid_until="2030-01-01T00:00:00Z", cache_duration="PT1H",
+                               spsso_descriptor=[sp],
+                               contact_person=[md.ContactPerson(contact_type="technical", given_name=md.GivenName(text="A"))])
+
+
+def c13_examples(T):
+    """(valid objects, [(label, object with exactly one constraint violated below the root)])"""
+    good = [_c13_response(), _c13_entity()]
+    bad = []
+
+    def resp(label, f):
+        r = _c13_response()
+        f(r)
+        bad.append((label, r))
+
+    def ent(label, f):
+        e = _c13_entity()
+        f(e)
+        bad.append((label, e))
+    resp("required attribute missing (Assertion/@ID), depth 1", lambda r: setattr(r.assertion[0], "id", None))
+    resp("required attribute empty (Assertion/@Version), depth 1", lambda r: setattr(r.assertion[0], "version", ""))
+    resp("required attribute missing (StatusCode/@Value), depth 2", lambda r: setattr(r.status.status_code, "value", None))
+    resp("too few children (AudienceRestriction without Audience), depth 3",
+         lambda r: setattr(r.assertion[0].conditions.audience_restriction[0], "audience", []))
+    resp("too many children (two Subjects where max is 1), depth 1",
+         lambda r: setattr(r.assertion[0], "subject", [r.assertion[0].subject, _c13_response().assertion[0].subject]))
+    ent("boolean attribute (RequestedAttribute/@isRequired = maybe), depth 3",
+        lambda e: setattr(e.spsso_descriptor[0].attribute_consuming_service[0].requested_attribute[0], "is_required", "maybe"))
+    ent("integer-kind attribute (AssertionConsumerService/@index = 70000, an unsignedShort), depth 2",
+        lambda e: setattr(e.spsso_descriptor[0].assertion_consumer_service[0], "index", "70000"))
+    ent("integer-kind attribute (AttributeConsumingService/@index = x1), depth 2",
+        lambda e: setattr(e.spsso_descriptor[0].attribute_consuming_service[0], "index", "x1"))
+    ent("enumerated attribute (KeyDescriptor/@use = other), depth 2",
+        lambda e: setattr(e.spsso_descriptor[0].key_descriptor[0], "use", "other"))
+    ent("enumerated attribute (ContactPerson/@contactType = boss), depth 1",
+        lambda e: setattr(e.contact_person[0], "contact_type", "boss"))
+    ent("too few children (SPSSODescriptor without AssertionConsumerService), depth 1",
+        lambda e: setattr(e.spsso_descriptor[0], "assertion_consumer_service", []))
+    ent("too few children (AttributeConsumingService without RequestedAttribute), depth 2",
+        lambda e: setattr(e.spsso_descriptor[0].attribute_consuming_service[0], "requested_attribute", []))
+    ent("required attribute missing (AssertionConsumerService/@Location), depth 2",
+        lambda e: setattr(e.spsso_descriptor[0].assertion_consumer_service[0], "location", None))
+    return good, bad
 
 
 def example_inst(T):
